@@ -168,6 +168,20 @@ pub fn scenarios(prop: &str, tier: &str) -> Vec<Scenario> {
                 }
             }
         }
+        if prop == "C01" {
+            // the only goal sample lies marginally (0.03 L) inside an obstacle: a goal-side root that is
+            // accepted without (or after giving up on) validation lets the goal tree grow outwards
+            let l = crate::refspace::lvs(&b.spec);
+            let s1 = b.goal_samples[1].clone();
+            let far = with_kit!(kit, farthest_state(&b, &s1));
+            let ob = with_kit!(kit, marginal_ball_of(&b, &s1, &far, 2.5 * l, 0.03 * l));
+            for pk in [Pk::Connect, Pk::Rrt] {
+                let mut sc = b.scenario(b.world_named("goal-sample-marginally-inside", vec![ob.clone()]), b.params(pk, 0.6, 1.5, 0.0), &format!("C01/{kit}/goal-sample-marginally-inside/{}", pk.name()));
+                sc.goal_samples = vec![s1.clone()];
+                sc.goal_balls = vec![(s1.clone(), 0.01 * l)];
+                out.push(sc);
+            }
+        }
         if prop == "C02" {
             // a start the checker accepts but the space bounds reject: the path still begins at exactly
             // that state (the planners must not "repair" the user's start)
@@ -215,6 +229,16 @@ pub fn scenarios(prop: &str, tier: &str) -> Vec<Scenario> {
         }
     }
     out
+}
+
+fn farthest_state<K: Kit>(b: &Base, s: &crate::kit::V) -> crate::kit::V {
+    use oxmpl::base::space::StateSpace;
+    let sp = K::build(&b.spec);
+    let x = K::from_v(s);
+    b.alphabet.iter().max_by(|p, q| sp.distance(&x, &K::from_v(p)).partial_cmp(&sp.distance(&x, &K::from_v(q))).unwrap()).unwrap().clone()
+}
+fn marginal_ball_of<K: Kit>(b: &Base, t: &crate::kit::V, toward: &crate::kit::V, r: f64, depth: f64) -> ObstSpec {
+    crate::scen::marginal_ball::<K>(&b.spec, t, toward, r, depth)
 }
 
 /// A bounded version of the base space together with a start just outside those bounds (None where the
